@@ -197,6 +197,20 @@ pub struct Model {
     deleted_pairs: BTreeSet<(u64, u64)>,
     /// (is_edge, id, key) written by a `set_*_property` on a dead id
     pub ghosts: BTreeSet<(bool, u64, u8)>,
+    /// (is_edge, key) columns whose min/max summary has seen a finite Float with |x| >= 2^53 since it was last rebuilt
+    /// (the summary only ever widens, so the value need not be stored any more); region of known finding
+    /// C14-zone-map-int-float-rounding
+    pub big_float_seen: BTreeSet<(bool, u8)>,
+}
+
+fn is_big_float(v: &V) -> bool {
+    match v {
+        V::F(b) => {
+            let x = f64::from_bits(*b);
+            x.is_finite() && x.abs() >= 9_007_199_254_740_992.0
+        }
+        _ => false,
+    }
 }
 
 /// Which kind of id an operation aims at.
@@ -500,6 +514,54 @@ pub fn apply_model(m: &mut Model, cmd: &Cmd) -> Outcome {
     // creation and deletion and with label changes; any mutation conservatively marks them stale.
     if mutating && !matches!(cmd, Cmd::CreateIndex { .. } | Cmd::DropIndex { .. }) {
         m.stats_fresh = 0;
+    }
+    match cmd {
+        Cmd::CreateNode { props, .. } => {
+            for (k, v) in props {
+                if is_big_float(v) {
+                    m.big_float_seen.insert((false, *k));
+                }
+            }
+        }
+        Cmd::CreateEdge { props, .. } => {
+            for (k, v) in props {
+                if is_big_float(v) {
+                    m.big_float_seen.insert((true, *k));
+                }
+            }
+        }
+        Cmd::SetNodeProp { key, val, .. } if is_big_float(val) => {
+            m.big_float_seen.insert((false, *key));
+        }
+        Cmd::SetEdgeProp { key, val, .. } if is_big_float(val) => {
+            m.big_float_seen.insert((true, *key));
+        }
+        Cmd::RebuildZoneMaps => {
+            // summaries are recomputed from what the columns hold now (values written to deleted ids included)
+            let ghosts = m.ghosts.clone();
+            let mut seen = BTreeSet::new();
+            for n in m.nodes.values() {
+                for (k, v) in &n.props {
+                    if is_big_float(v) {
+                        seen.insert((false, *k));
+                    }
+                }
+            }
+            for e in m.edges.values() {
+                for (k, v) in &e.props {
+                    if is_big_float(v) {
+                        seen.insert((true, *k));
+                    }
+                }
+            }
+            for (is_edge, _, k) in ghosts {
+                if m.big_float_seen.contains(&(is_edge, k)) {
+                    seen.insert((is_edge, k));
+                }
+            }
+            m.big_float_seen = seen;
+        }
+        _ => {}
     }
     match cmd {
         Cmd::CreateNode { labels, props } => {
